@@ -774,6 +774,11 @@ class FnBuf:
         for n in self.fn.walk():
             if n is c or n["k"] != "Call" or n["l"] > c["l"]:
                 continue
+            npos0 = cfg.locate(n)
+            if npos0 is None or cpos is None:
+                continue
+            if npos0[0] != cpos[0] and cpos[0] not in cfg.reachable_blocks(npos0[0]):
+                continue      # this writer cannot be followed by c on any path
             if last_reset is not None and n is not last_reset:
                 # only appends between the dominating reset and c matter
                 npos = cfg.locate(n)
